@@ -1,29 +1,1669 @@
-//! C11, C12, C13: executable contracts of generate_*_report
-use crate::report::CheckResult;
+//! C11, C12, C13: executable contracts of generate_*_report / generate_report (bounded, never proof).
+//!
+//! The real public functions are called on generated findings maps and their output is READ BACK:
+//! the text is cut at the `### Lines` markers, the `- file:line` entries are read up to the blank
+//! line, the text in front of every list is matched against the constant section texts (taken
+//! directly from the `report_sections::*::<module>::report_section_content` functions, i.e. through
+//! a table that is independent of the 30-arm `get_*_report_section` mapping under test).
+//!
+//!   C11  entries (multiset, per pattern) == findings; section of p occurs iff p has >= 1 line;
+//!        nothing else is in front of a list than the section of the pattern it belongs to.
+//!   C12  printed total == number of entries listed; severity heading iff finding of that severity;
+//!        every vulnerability under its own heading; solstat_report.md == concatenation of exactly
+//!        the parts of the categories that have findings.
+//!   C13  output is byte-identical for every fresh map instance, insertion order of the patterns,
+//!        order of the (file, lines) elements, map capacity and process; order is the canonical one.
+//!
+//! Replay: `vxn c11-case|c12-case|c13-case @src:<case>`; the case format is line based:
+//!     whole                      (optional, first line: run generate_report on the three parts)
+//!     cat vuln|opt|qa            (starts the findings map of one category)
+//!     p <PatternName>            (insert this pattern next; its Vec follows)
+//!     f <l1,l2,..>|<file name>   (one (file, line set) element; the name is the rest of the line)
+use crate::json::J;
+use crate::report::{CheckResult, Rng};
+use solstat::analyzer::optimizations::Optimization as O;
+use solstat::analyzer::qa::QualityAssurance as Q;
+use solstat::analyzer::vulnerabilities::Vulnerability as V;
+use solstat::report::report_sections::{optimizations as so, qa as sq, vulnerabilities as sv};
+use solstat::report::{generation, optimization_report as orep, qa_report as qrep, vulnerability_report as vrep};
+use std::collections::{BTreeMap, BTreeSet, HashMap};
+use std::hash::Hash;
+use std::panic::{catch_unwind, AssertUnwindSafe};
+
+// ------------------------------------------------------------------ the patterns (specification tables)
+
+const OPTS: [(O, fn() -> String); 23] = [
+    (O::AddressBalance, so::address_balance::report_section_content),
+    (O::AddressZero, so::address_zero::report_section_content),
+    (O::AssignUpdateArrayValue, so::assign_update_array_value::report_section_content),
+    (O::CacheArrayLength, so::cache_array_length::report_section_content),
+    (O::ConstantVariables, so::constant_variable::report_section_content),
+    (O::BoolEqualsBool, so::bool_equals_bool::report_section_content),
+    (O::ImmutableVarialbes, so::immutable_variable::report_section_content),
+    (O::IncrementDecrement, so::increment_decrement::report_section_content),
+    (O::MemoryToCalldata, so::memory_to_calldata::report_section_content),
+    (O::MultipleRequire, so::multiple_require::report_section_content),
+    (O::PackStorageVariables, so::pack_storage_variables::report_section_content),
+    (O::PackStructVariables, so::pack_struct_variables::report_section_content),
+    (O::PayableFunction, so::payable_function::report_section_content),
+    (O::PrivateConstant, so::private_constant::report_section_content),
+    (O::SafeMathPre080, so::safe_math_pre_080::report_section_content),
+    (O::SafeMathPost080, so::safe_math_post_080::report_section_content),
+    (O::ShiftMath, so::shift_math::report_section_content),
+    (O::SolidityKeccak256, so::solidity_keccak256::report_section_content),
+    (O::SolidityMath, so::solidity_math::report_section_content),
+    (O::Sstore, so::sstore::report_section_content),
+    (O::StringErrors, so::string_errors::report_section_content),
+    (O::OptimalComparison, so::optimal_comparison::report_section_content),
+    (O::ShortRevertString, so::short_revert_string::report_section_content),
+];
+
+/// severity per the property text: selfdestruct high, divide-before-multiply medium, ERC20 and pragma low
+const VULNS: [(V, fn() -> String, usize); 4] = [
+    (V::FloatingPragma, sv::floating_pragma::report_section_content, 2),
+    (V::UnsafeERC20Operation, sv::unsafe_erc20_operation::report_section_content, 2),
+    (V::UnprotectedSelfdestruct, sv::unprotected_selfdestruct::report_section_content, 0),
+    (V::DivideBeforeMultiply, sv::divide_before_multiply::report_section_content, 1),
+];
+
+const QAS: [(Q, fn() -> String); 3] = [
+    (Q::ConstructorOrder, sq::constructor_order::report_section_content),
+    (Q::PrivateVarsLeadingUnderscore, sq::private_vars_leading_underscore::report_section_content),
+    (Q::PrivateFuncLeadingUnderscore, sq::private_func_leading_underscore::report_section_content),
+];
+
+const SEV: [&str; 3] = ["high", "medium", "low"];
+const HEADINGS: [&str; 3] = ["## High Risk", "## Medium Risk", "## Low Risk"];
+const MARKER: &str = "### Lines";
+
+#[derive(Clone, Copy, PartialEq, Eq, Debug, PartialOrd, Ord)]
+enum Cat {
+    Vuln = 0,
+    Opt = 1,
+    Qa = 2,
+}
+const CATS: [Cat; 3] = [Cat::Vuln, Cat::Opt, Cat::Qa];
+impl Cat {
+    fn tag(self) -> &'static str {
+        ["vuln", "opt", "qa"][self as usize]
+    }
+    fn long(self) -> &'static str {
+        ["vulnerabilities", "optimizations", "qa"][self as usize]
+    }
+}
+
+struct Pat {
+    name: String,
+    /// section text taken directly from the report_sections module of this pattern (the specification)
+    direct: String,
+    /// what get_*_report_section(pattern) returned (Err: it panicked)
+    mapped: Result<String, String>,
+}
+
+struct Spec {
+    pats: [Vec<Pat>; 3],
+    /// (text before the total, text after the total) of the overview, None for QA
+    ov: [Option<(String, String)>; 3],
+    qa_overview: String,
+}
+
+impl Spec {
+    fn new() -> Spec {
+        let mut v = vec![];
+        for (p, f, _) in VULNS.iter() {
+            let p = *p;
+            v.push(Pat { name: format!("{:?}", p), direct: f(), mapped: guard(move || vrep::get_vulnerability_report_section(p).0) });
+        }
+        let mut o = vec![];
+        for (p, f) in OPTS.iter() {
+            let p = *p;
+            o.push(Pat { name: format!("{:?}", p), direct: f(), mapped: guard(move || orep::get_optimization_report_section(p)) });
+        }
+        let mut q = vec![];
+        for (p, f) in QAS.iter() {
+            let p = *p;
+            q.push(Pat { name: format!("{:?}", p), direct: f(), mapped: guard(move || qrep::get_qa_report_section(p)) });
+        }
+        const SENT: usize = 987654321;
+        let split = |t: String| -> Option<(String, String)> { t.split_once("987654321").map(|(a, b)| (a.to_string(), b.to_string())) };
+        Spec {
+            pats: [v, o, q],
+            ov: [split(sv::overview::report_section_content(SENT)), split(so::overview::report_section_content(SENT)), None],
+            qa_overview: sq::overview::report_section_content(),
+        }
+    }
+    fn n(&self, c: Cat) -> usize {
+        self.pats[c as usize].len()
+    }
+    fn name(&self, c: Cat, i: usize) -> &str {
+        &self.pats[c as usize][i].name
+    }
+    fn overview(&self, c: Cat, total: usize) -> String {
+        match c {
+            Cat::Vuln => sv::overview::report_section_content(total),
+            Cat::Opt => so::overview::report_section_content(total),
+            Cat::Qa => self.qa_overview.clone() + "\n",
+        }
+    }
+
+    /// Soundness conditions of the read-back parser and of the section lookup. A failure is a
+    /// violation of C11 ("reading the entries back reproduces the findings", "each entry follows the
+    /// section of its own pattern") that does not depend on the findings at all.
+    fn static_checks(&self) -> Vec<Viol> {
+        let mut out = vec![];
+        let mut all: Vec<(Cat, usize)> = vec![];
+        for c in CATS {
+            for i in 0..self.n(c) {
+                all.push((c, i));
+            }
+        }
+        for &(c, i) in &all {
+            let p = &self.pats[c as usize][i];
+            match &p.mapped {
+                Err(e) => out.push(Viol::new(format!("c11:section-lookup-panics:{}", p.name), format!("get_{}_report_section({}) panicked: {}", c.tag(), p.name, e), "the section text", e.clone())),
+                Ok(m) if *m != p.direct => out.push(Viol::new(
+                    format!("c11:wrong-section-text:{}", p.name),
+                    format!("get_*_report_section({}) does not return the text of that pattern's own report_sections module", p.name),
+                    head(&p.direct, 120),
+                    head(m, 120),
+                )),
+                _ => {}
+            }
+            for l in p.direct.split('\n') {
+                if l == MARKER || parse_entry(l).is_some() || HEADINGS.contains(&l) {
+                    out.push(Viol::new(
+                        format!("c11:section-text-contains-list-syntax:{}", p.name),
+                        format!("the constant section text of {} contains the line {:?}; a reader of the report takes it for a list marker, an entry or a severity heading", p.name, l),
+                        "no line '### Lines', '- x:N' or '## .. Risk' inside a section text",
+                        l.to_string(),
+                    ));
+                }
+            }
+            if p.direct.trim_matches('\n').is_empty() {
+                out.push(Viol::new(format!("c11:empty-section-text:{}", p.name), format!("the section text of {} is empty", p.name), "a non-empty text", ""));
+            }
+        }
+        // identification is by suffix: no section may be a suffix of another one (in particular: distinct)
+        for &(c, i) in &all {
+            for &(d, j) in &all {
+                if (c, i) != (d, j) {
+                    let a = self.pats[c as usize][i].direct.trim_matches('\n');
+                    let b = self.pats[d as usize][j].direct.trim_matches('\n');
+                    if !a.is_empty() && b.ends_with(a) && (a.len() < b.len() || (c, i) < (d, j)) {
+                        out.push(Viol::new(
+                            format!("c11:ambiguous-section-text:{}", self.name(c, i)),
+                            format!("the section text of {} is {} the one of {}: a list cannot be attributed to its pattern", self.name(c, i), if a.len() == b.len() { "identical to" } else { "a suffix of" }, self.name(d, j)),
+                            "pairwise distinguishable section texts",
+                            head(a, 80),
+                        ));
+                    }
+                }
+            }
+        }
+        for c in [Cat::Vuln, Cat::Opt] {
+            if self.ov[c as usize].is_none() {
+                out.push(Viol::new(format!("c12:total-not-printed:{}", c.long()), format!("the {} overview does not contain the total it is given", c.long()), "the decimal total inside the overview", head(&self.overview(c, 987654321), 100)));
+            }
+            for l in self.overview(c, 7).split('\n') {
+                if l == MARKER || parse_entry(l).is_some() || HEADINGS.contains(&l) {
+                    out.push(Viol::new(format!("c11:section-text-contains-list-syntax:{}-overview", c.long()), format!("the {} overview contains the line {:?}", c.long(), l), "no list syntax inside the overview", l.to_string()));
+                }
+            }
+        }
+        out
+    }
+
+    /// the pattern whose section text ends `pre` (longest match, at a line start); returns it and the rest in front
+    fn identify<'a>(&self, only: Option<Cat>, pre: &'a str) -> (Option<(Cat, usize)>, &'a str) {
+        let p = pre.trim_end_matches('\n');
+        let mut best: Option<(Cat, usize, usize)> = None;
+        for c in CATS {
+            if only.map_or(false, |o| o != c) {
+                continue;
+            }
+            for (i, pat) in self.pats[c as usize].iter().enumerate() {
+                let s = pat.direct.trim_matches('\n');
+                if !s.is_empty() && p.ends_with(s) {
+                    let at = p.len() - s.len();
+                    if (at == 0 || p.as_bytes()[at - 1] == b'\n') && best.map_or(true, |b| s.len() > b.2) {
+                        best = Some((c, i, s.len()));
+                    }
+                }
+            }
+        }
+        match best {
+            Some((c, i, l)) => (Some((c, i)), &p[..p.len() - l]),
+            None => (None, pre),
+        }
+    }
+}
+
+// ------------------------------------------------------------------ cases
+
+/// (file name, line set as ascending distinct list)
+type Files = Vec<(String, Vec<i32>)>;
+/// one findings map, in insertion order: (pattern index, its Vec)
+type Part = Vec<(usize, Files)>;
+
+#[derive(Clone)]
+struct Case {
+    whole: bool,
+    parts: Vec<(Cat, Part)>,
+}
+
+impl Case {
+    fn one(c: Cat, p: Part) -> Case {
+        Case { whole: false, parts: vec![(c, p)] }
+    }
+    fn part(&self, c: Cat) -> Part {
+        self.parts.iter().find(|(d, _)| *d == c).map(|(_, p)| p.clone()).unwrap_or_default()
+    }
+    fn ser(&self, spec: &Spec) -> String {
+        let mut o = String::new();
+        if self.whole {
+            o.push_str("whole\n");
+        }
+        for (c, part) in &self.parts {
+            o.push_str(&format!("cat {}\n", c.tag()));
+            for (i, files) in part {
+                o.push_str(&format!("p {}\n", spec.name(*c, *i)));
+                for (n, ls) in files {
+                    let csv: Vec<String> = ls.iter().map(|l| l.to_string()).collect();
+                    o.push_str(&format!("f {}|{}\n", csv.join(","), n));
+                }
+            }
+        }
+        o
+    }
+    fn de(text: &str, spec: &Spec) -> Result<Case, String> {
+        let mut case = Case { whole: false, parts: vec![] };
+        for l in text.split('\n') {
+            if l == "whole" {
+                case.whole = true;
+            } else if let Some(t) = l.strip_prefix("cat ") {
+                let c = CATS.iter().find(|c| c.tag() == t).ok_or(format!("unknown category {:?}", t))?;
+                case.parts.push((*c, vec![]));
+            } else if let Some(t) = l.strip_prefix("p ") {
+                let (c, part) = case.parts.last_mut().ok_or("p before cat")?;
+                let i = (0..spec.n(*c)).find(|i| spec.name(*c, *i) == t).ok_or(format!("unknown pattern {:?}", t))?;
+                part.push((i, vec![]));
+            } else if let Some(t) = l.strip_prefix("f ") {
+                let (ls, name) = t.split_once('|').ok_or("f line without '|'")?;
+                let mut set = BTreeSet::new();
+                for x in ls.split(',').filter(|x| !x.is_empty()) {
+                    set.insert(x.parse::<i32>().map_err(|e| format!("bad line number {:?}: {}", x, e))?);
+                }
+                let (_, part) = case.parts.last_mut().ok_or("f before cat")?;
+                let (_, files) = part.last_mut().ok_or("f before p")?;
+                files.push((name.to_string(), set.into_iter().collect()));
+            } else if !l.is_empty() {
+                return Err(format!("unparsable case line {:?}", l));
+            }
+        }
+        Ok(case)
+    }
+    /// cheap identity of the case (same information as `ser`)
+    fn fingerprint(&self) -> String {
+        let mut h = 0xcbf29ce484222325u64;
+        let mut eat = |x: u64| {
+            for b in x.to_le_bytes() {
+                h ^= b as u64;
+                h = h.wrapping_mul(0x100000001b3);
+            }
+        };
+        eat(self.whole as u64);
+        for (c, part) in &self.parts {
+            eat(0xC0 + *c as u64);
+            for (i, files) in part {
+                eat(0xA000 + *i as u64);
+                for (n, ls) in files {
+                    eat(0xF00000 + n.len() as u64);
+                    for b in n.bytes() {
+                        eat(b as u64);
+                    }
+                    for l in ls {
+                        eat(*l as u32 as u64 | 1 << 40);
+                    }
+                }
+            }
+        }
+        format!("{:016x}", h)
+    }
+    fn entries(&self) -> usize {
+        self.parts.iter().map(|(_, p)| p.iter().map(|(_, f)| nlines(f)).sum::<usize>()).sum()
+    }
+}
+
+fn nlines(f: &Files) -> usize {
+    f.iter().map(|(_, l)| l.len()).sum()
+}
+
+fn fnv(s: &str) -> u64 {
+    let mut h = 0xcbf29ce484222325u64;
+    for b in s.bytes() {
+        h ^= b as u64;
+        h = h.wrapping_mul(0x100000001b3);
+    }
+    h
+}
+
+fn head(s: &str, n: usize) -> String {
+    if s.chars().count() <= n {
+        s.to_string()
+    } else {
+        let t: String = s.chars().take(n).collect();
+        format!("{}.. ({} bytes)", t, s.len())
+    }
+}
+
+struct Viol {
+    key: String,
+    what: String,
+    expected: String,
+    actual: String,
+}
+impl Viol {
+    fn new<A: Into<String>, B: Into<String>, C: Into<String>, D: Into<String>>(key: A, what: B, expected: C, actual: D) -> Viol {
+        Viol { key: key.into(), what: what.into(), expected: expected.into(), actual: actual.into() }
+    }
+}
+
+// ------------------------------------------------------------------ calling the real code
+
+fn guard<T>(f: impl FnOnce() -> T) -> Result<T, String> {
+    catch_unwind(AssertUnwindSafe(f)).map_err(|e| {
+        if let Some(s) = e.downcast_ref::<&str>() {
+            s.to_string()
+        } else if let Some(s) = e.downcast_ref::<String>() {
+            s.clone()
+        } else {
+            "panic".to_string()
+        }
+    })
+}
+
+fn build<K: Eq + Hash>(part: &Part, cap: usize, key: impl Fn(usize) -> K) -> HashMap<K, Vec<(String, BTreeSet<i32>)>> {
+    // every call makes a FRESH map: std's RandomState gives every instance its own hash keys
+    let mut m = if cap > 0 { HashMap::with_capacity(cap) } else { HashMap::new() };
+    for (i, files) in part {
+        m.insert(key(*i), files.iter().map(|(n, l)| (n.clone(), l.iter().cloned().collect::<BTreeSet<i32>>())).collect());
+    }
+    m
+}
+
+/// the real generate_<category>_report on a fresh map filled in the order of `part`
+fn render(c: Cat, part: &Part, cap: usize) -> Result<String, String> {
+    match c {
+        Cat::Vuln => {
+            let m = build(part, cap, |i| VULNS[i].0);
+            guard(move || vrep::generate_vulnerability_report(m))
+        }
+        Cat::Opt => {
+            let m = build(part, cap, |i| OPTS[i].0);
+            guard(move || orep::generate_optimization_report(m))
+        }
+        Cat::Qa => {
+            let m = build(part, cap, |i| QAS[i].0);
+            guard(move || qrep::generate_qa_report(m))
+        }
+    }
+}
+
+static SCRATCH_N: std::sync::atomic::AtomicUsize = std::sync::atomic::AtomicUsize::new(0);
+
+/// the real generate_report, run in a scratch directory; returns the content of solstat_report.md
+fn render_whole(case: &Case) -> Result<String, String> {
+    let n = SCRATCH_N.fetch_add(1, std::sync::atomic::Ordering::SeqCst);
+    let dir = std::env::temp_dir().join(format!("vxn-{}-rep{}", std::process::id(), n));
+    std::fs::create_dir_all(&dir).map_err(|e| format!("harness: cannot create scratch dir: {}", e))?;
+    let old = std::env::current_dir().map_err(|e| format!("harness: no cwd: {}", e))?;
+    std::env::set_current_dir(&dir).map_err(|e| format!("harness: cannot enter scratch dir: {}", e))?;
+    let v = build(&case.part(Cat::Vuln), 0, |i| VULNS[i].0);
+    let o = build(&case.part(Cat::Opt), 0, |i| OPTS[i].0);
+    let q = build(&case.part(Cat::Qa), 0, |i| QAS[i].0);
+    let r = guard(move || generation::generate_report(v, o, q));
+    let text = std::fs::read_to_string(dir.join("solstat_report.md"));
+    let _ = std::env::set_current_dir(&old);
+    let _ = std::fs::remove_dir_all(&dir);
+    r?;
+    text.map_err(|e| format!("solstat_report.md was not written: {}", e))
+}
+
+// ------------------------------------------------------------------ reading a report back
+
+fn parse_entry(l: &str) -> Option<(String, i32)> {
+    let t = l.strip_prefix("- ")?;
+    let (f, n) = t.rsplit_once(':')?;
+    let v: i32 = n.parse().ok()?;
+    if v.to_string() != n {
+        return None;
+    }
+    Some((f.to_string(), v))
+}
+
+/// (text in front of the marker, lines of the list, list closed by a blank line), and the text after the last list
+fn raw_blocks(text: &str) -> (Vec<(String, Vec<String>, bool)>, String) {
+    let mut out = vec![];
+    let mut pre_start = 0;
+    let mut pos = 0;
+    let mut cur: Option<(String, Vec<String>)> = None;
+    for line in text.split_inclusive('\n') {
+        let start = pos;
+        pos += line.len();
+        let body = line.strip_suffix('\n').unwrap_or(line);
+        match cur.take() {
+            None => {
+                if body == MARKER {
+                    cur = Some((text[pre_start..start].to_string(), vec![]));
+                }
+            }
+            Some((pre, mut ls)) => {
+                if body.is_empty() {
+                    out.push((pre, ls, true));
+                    pre_start = pos;
+                } else {
+                    ls.push(body.to_string());
+                    cur = Some((pre, ls));
+                }
+            }
+        }
+    }
+    if let Some((pre, ls)) = cur {
+        out.push((pre, ls, false));
+        pre_start = text.len();
+    }
+    (out, text[pre_start..].to_string())
+}
+
+#[derive(Clone, Debug, PartialEq)]
+enum Ev {
+    /// overview found; Some(total) where the category prints one
+    Overview(Option<i64>),
+    Heading(usize),
+    Block { pat: Option<usize>, entries: Vec<(String, i32)>, malformed: Vec<String>, closed: bool },
+    Junk(String),
+}
+
+fn leftovers(spec: &Spec, c: Cat, rem: &str, first: bool, evs: &mut Vec<Ev>) {
+    let mut rest = rem;
+    if first {
+        match &spec.ov[c as usize] {
+            None => {
+                if let Some(r) = rest.strip_prefix(spec.qa_overview.as_str()) {
+                    evs.push(Ev::Overview(None));
+                    rest = r;
+                }
+            }
+            Some((a, b)) => {
+                if let Some(r) = rest.strip_prefix(a.as_str()) {
+                    let digits = r.bytes().take_while(|b| b.is_ascii_digit()).count();
+                    if let (Ok(n), Some(r2)) = (r[..digits].parse::<i64>(), r[digits..].strip_prefix(b.trim_end_matches('\n'))) {
+                        evs.push(Ev::Overview(Some(n)));
+                        rest = r2;
+                    }
+                }
+            }
+        }
+    }
+    let mut junk = String::new();
+    for l in rest.split('\n') {
+        let h = HEADINGS.iter().position(|h| *h == l);
+        if l.is_empty() || (h.is_some() && c == Cat::Vuln) {
+            if !junk.is_empty() {
+                evs.push(Ev::Junk(std::mem::take(&mut junk)));
+            }
+            if let Some(h) = h {
+                evs.push(Ev::Heading(h));
+            }
+        } else {
+            if !junk.is_empty() {
+                junk.push('\n');
+            }
+            junk.push_str(l);
+        }
+    }
+    if !junk.is_empty() {
+        evs.push(Ev::Junk(junk));
+    }
+}
+
+/// read the output of generate_<c>_report back
+fn read_back(spec: &Spec, c: Cat, text: &str) -> Vec<Ev> {
+    let (blocks, tail) = raw_blocks(text);
+    let mut evs = vec![];
+    let mut first = true;
+    for (pre, ls, closed) in blocks {
+        let (pat, rem) = spec.identify(Some(c), &pre);
+        leftovers(spec, c, rem, first, &mut evs);
+        first = false;
+        let mut entries = vec![];
+        let mut malformed = vec![];
+        for l in ls {
+            match parse_entry(&l) {
+                Some(e) => entries.push(e),
+                None => malformed.push(l),
+            }
+        }
+        evs.push(Ev::Block { pat: pat.map(|p| p.1), entries, malformed, closed });
+    }
+    leftovers(spec, c, &tail, first, &mut evs);
+    evs
+}
+
+/// sequence of (pattern, entry sequence) of a category report
+fn block_seq(evs: &[Ev]) -> Vec<(Option<usize>, Vec<(String, i32)>)> {
+    evs.iter().filter_map(|e| if let Ev::Block { pat, entries, .. } = e { Some((*pat, entries.clone())) } else { None }).collect()
+}
+
+/// lists of the whole report file, attributed over all 30 section texts
+fn whole_blocks(spec: &Spec, text: &str) -> Vec<(Option<(Cat, usize)>, Vec<(String, i32)>, Vec<String>)> {
+    let (blocks, _) = raw_blocks(text);
+    blocks
+        .into_iter()
+        .map(|(pre, ls, _)| {
+            let (pat, _) = spec.identify(None, &pre);
+            let mut entries = vec![];
+            let mut malformed = vec![];
+            for l in ls {
+                match parse_entry(&l) {
+                    Some(e) => entries.push(e),
+                    None => malformed.push(l),
+                }
+            }
+            (pat, entries, malformed)
+        })
+        .collect()
+}
+
+fn expected_entries(files: &Files) -> Vec<(String, i32)> {
+    let mut v = vec![];
+    for (n, ls) in files {
+        for l in ls {
+            v.push((n.clone(), *l));
+        }
+    }
+    v
+}
+
+fn multiset(v: &[(String, i32)]) -> BTreeMap<(String, i32), i64> {
+    let mut m = BTreeMap::new();
+    for e in v {
+        *m.entry(e.clone()).or_insert(0) += 1;
+    }
+    m
+}
+
+const NAME_CLASSES: [&str; 5] = ["empty-name", "name-like-report-syntax", "name-with-colon", "non-ascii-name", "name-with-special-characters"];
+
+fn name_class(n: &str) -> Option<&'static str> {
+    if n.is_empty() {
+        Some("empty-name")
+    } else if n.contains(':') {
+        Some("name-with-colon")
+    } else if n.starts_with("- ") || n.starts_with('#') {
+        Some("name-like-report-syntax")
+    } else if !n.is_ascii() {
+        Some("non-ascii-name")
+    } else if !n.bytes().all(|b| b.is_ascii_alphanumeric() || b == b'.' || b == b'_' || b == b'-' || b == b'/') {
+        Some("name-with-special-characters")
+    } else {
+        None
+    }
+}
+
+fn show_entries(v: &[(String, i32)]) -> String {
+    let s: Vec<String> = v.iter().take(6).map(|(f, l)| format!("{}:{}", f, l)).collect();
+    format!("[{}{}]", s.join(", "), if v.len() > 6 { ", .." } else { "" })
+}
+
+/// compare the entries read back for one pattern with its findings
+fn entries_violation(prefix: &str, cat: Cat, pname: &str, want: &[(String, i32)], got: &[(String, i32)]) -> Option<Viol> {
+    let (w, g) = (multiset(want), multiset(got));
+    if w == g {
+        return None;
+    }
+    let mut missing = vec![];
+    let mut extra = vec![];
+    for (e, n) in &w {
+        if g.get(e).copied().unwrap_or(0) < *n {
+            missing.push(e.clone());
+        }
+    }
+    for (e, n) in &g {
+        if w.get(e).copied().unwrap_or(0) < *n {
+            extra.push(e.clone());
+        }
+    }
+    let cls = missing.iter().chain(extra.iter()).filter_map(|(f, _)| name_class(f)).next();
+    let kind = if extra.is_empty() { "entries-missing" } else if missing.is_empty() { "entries-unexpected" } else { "entries-mismatch" };
+    Some(Viol::new(
+        format!("{}:{}:{}{}", prefix, kind, cat.long(), cls.map(|c| format!(":{}", c)).unwrap_or_default()),
+        format!("the list of {} does not contain exactly its findings: missing {}, unexpected {}", pname, show_entries(&missing), show_entries(&extra)),
+        show_entries(want),
+        show_entries(got),
+    ))
+}
+
+// ------------------------------------------------------------------ C11
+
+fn check_c11(spec: &Spec, case: &Case, evals: &mut u64) -> Vec<Viol> {
+    let mut out = vec![];
+    if case.whole {
+        *evals += 1;
+        let text = match render_whole(case) {
+            Ok(t) => t,
+            Err(e) => return vec![Viol::new("c11:panic:generate_report", format!("generate_report panicked: {}", e), "a report", e)],
+        };
+        let blocks = whole_blocks(spec, &text);
+        for c in CATS {
+            let part = case.part(c);
+            for i in 0..spec.n(c) {
+                let want: Vec<(String, i32)> = part.iter().filter(|(j, _)| *j == i).flat_map(|(_, f)| expected_entries(f)).collect();
+                let got: Vec<(String, i32)> = blocks.iter().filter(|(p, _, _)| *p == Some((c, i))).flat_map(|(_, e, _)| e.clone()).collect();
+                if let Some(v) = entries_violation("c11:report-file", c, spec.name(c, i), &want, &got) {
+                    out.push(v);
+                }
+            }
+        }
+        for (p, e, m) in &blocks {
+            if p.is_none() {
+                out.push(Viol::new("c11:report-file:list-without-known-section", "a '### Lines' list in solstat_report.md is not preceded by the section text of any pattern", "section text of a pattern", show_entries(e)));
+            }
+            if !m.is_empty() {
+                out.push(Viol::new("c11:report-file:malformed-entry", "a list in solstat_report.md contains a line that is not '- file:line'", "- file:line", m[0].clone()));
+            }
+        }
+        return out;
+    }
+    for (c, part) in &case.parts {
+        let c = *c;
+        *evals += 1;
+        let text = match render(c, part, 0) {
+            Ok(t) => t,
+            Err(e) => {
+                out.push(Viol::new(format!("c11:panic:{}", c.long()), format!("generate_{}_report panicked: {}", c.tag(), e), "a report", e));
+                continue;
+            }
+        };
+        let evs = read_back(spec, c, &text);
+        let mut specific = false;
+        for ev in &evs {
+            match ev {
+                Ev::Junk(j) => {
+                    specific = true;
+                    out.push(Viol::new(format!("c11:unexpected-text:{}", c.long()), "the report contains text that is neither the overview, a heading, the section of a reported pattern nor a list", "only overview, headings, sections and lists", head(j, 200)));
+                }
+                Ev::Block { pat, entries, malformed, closed } => {
+                    if pat.is_none() {
+                        specific = true;
+                        out.push(Viol::new(format!("c11:list-without-known-section:{}", c.long()), "the text preceding a '### Lines' list is not the section text of any pattern of the category", "section text of the pattern that produced the list", show_entries(entries)));
+                    }
+                    if !malformed.is_empty() {
+                        specific = true;
+                        out.push(Viol::new(format!("c11:malformed-entry:{}", c.long()), "a list contains a line that is not '- file:line'", "- file:line", malformed[0].clone()));
+                    }
+                    if !closed {
+                        specific = true;
+                        out.push(Viol::new(format!("c11:list-not-terminated:{}", c.long()), "the last list is not terminated by a blank line", "blank line after the entries", "end of text"));
+                    }
+                }
+                _ => {}
+            }
+        }
+        let seq = block_seq(&evs);
+        for i in 0..spec.n(c) {
+            let mine: Vec<&Files> = part.iter().filter(|(j, _)| *j == i).map(|(_, f)| f).collect();
+            let want: Vec<(String, i32)> = mine.iter().flat_map(|f| expected_entries(f)).collect();
+            let has_files = mine.iter().any(|f| !f.is_empty());
+            let blocks: Vec<&Vec<(String, i32)>> = seq.iter().filter(|(p, _)| *p == Some(i)).map(|(_, e)| e).collect();
+            let got: Vec<(String, i32)> = blocks.iter().flat_map(|e| e.iter().cloned()).collect();
+            let pname = spec.name(c, i);
+            if want.is_empty() && !blocks.is_empty() && got.is_empty() {
+                specific = true;
+                if has_files {
+                    out.push(Viol::new(format!("c11:section-for-files-without-lines:{}", c.long()), format!("the section of {} is printed (with an empty list) although none of its files has a line", pname), "no section for a pattern without findings", format!("section of {} followed by an empty list", pname)));
+                } else {
+                    out.push(Viol::new(format!("c11:section-without-finding:{}", c.long()), format!("the section of {} is printed although the pattern has no finding", pname), "no section for a pattern without findings", format!("section of {}", pname)));
+                }
+            } else if !want.is_empty() && blocks.is_empty() {
+                specific = true;
+                out.push(Viol::new(format!("c11:section-missing:{}", c.long()), format!("{} has {} finding(s) but its section does not occur in the report", pname, want.len()), format!("section of {} followed by {}", pname, show_entries(&want)), "no such section"));
+            } else {
+                if blocks.len() > 1 {
+                    specific = true;
+                    out.push(Viol::new(format!("c11:section-repeated:{}", c.long()), format!("the section of {} occurs {} times", pname, blocks.len()), "one section per pattern", format!("{} sections", blocks.len())));
+                }
+                if let Some(v) = entries_violation("c11", c, pname, &want, &got) {
+                    specific = true;
+                    out.push(v);
+                }
+            }
+        }
+        // (d) the map read back equals the findings map (patterns with >= 1 line -> multiset of entries)
+        let mut want_map: BTreeMap<usize, BTreeMap<(String, i32), i64>> = BTreeMap::new();
+        for (i, f) in part {
+            if nlines(f) > 0 {
+                want_map.entry(*i).or_default().extend(multiset(&expected_entries(f)));
+            }
+        }
+        let mut got_map: BTreeMap<usize, BTreeMap<(String, i32), i64>> = BTreeMap::new();
+        let mut unknown = false;
+        for (p, e) in &seq {
+            match p {
+                Some(i) if !e.is_empty() => {
+                    for (k, n) in multiset(e) {
+                        *got_map.entry(*i).or_default().entry(k).or_insert(0) += n;
+                    }
+                }
+                None => unknown = true,
+                _ => {}
+            }
+        }
+        if (want_map != got_map || unknown) && !specific {
+            out.push(Viol::new(format!("c11:readback-differs:{}", c.long()), "reading the entries back out of the report does not reproduce the findings", format!("{:?}", want_map), format!("{:?}", got_map)));
+        }
+    }
+    out
+}
+
+// ------------------------------------------------------------------ C12
+
+/// 0 no pattern of the severity (or only empty Vecs), 1 files but no lines, 2 at least one line
+fn sev_level(part: &Part, s: usize) -> usize {
+    let mut lvl = 0;
+    for (i, f) in part {
+        if VULNS[*i].2 == s {
+            lvl = lvl.max(if nlines(f) > 0 { 2 } else if !f.is_empty() { 1 } else { 0 });
+        }
+    }
+    lvl
+}
+
+fn check_c12(spec: &Spec, case: &Case, evals: &mut u64) -> Vec<Viol> {
+    let mut out = vec![];
+    if case.whole {
+        *evals += 1;
+        let text = match render_whole(case) {
+            Ok(t) => t,
+            Err(e) => return vec![Viol::new("c12:panic:generate_report", format!("generate_report panicked: {}", e), "a report", e)],
+        };
+        // the parts as the category functions render them (deterministic here: the generator gives
+        // every category at most one pattern with files, see gen_whole)
+        let mut parts = vec![];
+        for c in CATS {
+            match render(c, &case.part(c), 0) {
+                Ok(t) => parts.push(t + "\n\n"),
+                Err(e) => return vec![Viol::new(format!("c12:panic:{}", c.long()), format!("generate_{}_report panicked: {}", c.tag(), e), "a report", e)],
+            }
+        }
+        let has: Vec<bool> = CATS.iter().map(|c| case.part(*c).iter().any(|(_, f)| nlines(f) > 0)).collect();
+        let compose = |mask: usize| -> String {
+            let mut s = String::new();
+            for k in 0..3 {
+                if mask & (1 << k) != 0 {
+                    s.push_str(&parts[k]);
+                }
+            }
+            s
+        };
+        let want_mask = (0..3).filter(|k| has[*k]).fold(0, |m, k| m | (1 << k));
+        if text != compose(want_mask) {
+            match (0..8).find(|m| compose(*m) == text) {
+                Some(m) => {
+                    for k in 0..3 {
+                        let c = CATS[k];
+                        let present = m & (1 << k) != 0;
+                        if present && !has[k] {
+                            let shape = if case.part(c).iter().any(|(_, f)| !f.is_empty()) { "files-without-lines" } else { "patterns-without-files" };
+                            out.push(Viol::new(
+                                format!("c12:category-part-without-findings:{}:{}", c.long(), shape),
+                                format!("solstat_report.md contains the {} part although that category has no finding (its map holds only {})", c.long(), shape.replace('-', " ")),
+                                format!("no {} part", c.long()),
+                                head(&parts[k], 160),
+                            ));
+                        } else if !present && has[k] {
+                            out.push(Viol::new(format!("c12:category-part-missing:{}", c.long()), format!("solstat_report.md lacks the {} part although that category has findings", c.long()), head(&parts[k], 160), "absent"));
+                        }
+                    }
+                }
+                None => out.push(Viol::new("c12:report-file-not-composed-of-category-parts", "solstat_report.md is not the concatenation (vulnerabilities, optimizations, qa; each followed by a blank line) of the category reports", head(&compose(want_mask), 200), head(&text, 200))),
+            }
+        }
+        return out;
+    }
+    for (c, part) in &case.parts {
+        let c = *c;
+        *evals += 1;
+        let text = match render(c, part, 0) {
+            Ok(t) => t,
+            Err(e) => {
+                out.push(Viol::new(format!("c12:panic:{}", c.long()), format!("generate_{}_report panicked: {}", c.tag(), e), "a report", e));
+                continue;
+            }
+        };
+        let evs = read_back(spec, c, &text);
+        let listed: usize = evs.iter().map(|e| if let Ev::Block { entries, malformed, .. } = e { entries.len() + malformed.len() } else { 0 }).sum();
+        if c != Cat::Qa {
+            let totals: Vec<i64> = evs.iter().filter_map(|e| if let Ev::Overview(Some(n)) = e { Some(*n) } else { None }).collect();
+            match totals.first() {
+                None => out.push(Viol::new(format!("c12:overview-missing:{}", c.long()), "the report does not start with the overview carrying the total", head(&spec.overview(c, listed), 80), head(&text, 80))),
+                Some(n) if *n != listed as i64 => {
+                    let cls = if (*n as usize) < listed { "total-smaller-than-listed-entries" } else { "total-larger-than-listed-entries" };
+                    out.push(Viol::new(format!("c12:{}:{}", cls, c.long()), format!("the overview announces {} but {} entries are listed", n, listed), format!("total {}", listed), format!("total {}", n)));
+                }
+                _ => {}
+            }
+        }
+        if c == Cat::Vuln {
+            let mut cur: Option<usize> = None;
+            let mut count = [0usize; 3];
+            let mut misplaced: Vec<usize> = vec![];
+            for ev in &evs {
+                match ev {
+                    Ev::Heading(h) => {
+                        count[*h] += 1;
+                        cur = Some(*h);
+                    }
+                    Ev::Block { pat: Some(p), .. } => {
+                        let want = VULNS[*p].2;
+                        if cur != Some(want) {
+                            misplaced.push(want);
+                            misplaced.extend(cur);
+                            out.push(Viol::new(
+                                format!("c12:{}-not-under-{}-heading", spec.name(c, *p), SEV[want]),
+                                format!("{} must be listed under '{}' but is listed {}", spec.name(c, *p), HEADINGS[want], cur.map(|h| format!("under '{}'", HEADINGS[h])).unwrap_or("before any severity heading".into())),
+                                HEADINGS[want].to_string(),
+                                cur.map(|h| HEADINGS[h].to_string()).unwrap_or("none".into()),
+                            ));
+                        }
+                    }
+                    _ => {}
+                }
+            }
+            for s in 0..3 {
+                // a misplaced pattern already explains a surplus/missing heading of the two severities involved
+                if misplaced.contains(&s) {
+                    continue;
+                }
+                let lvl = sev_level(part, s);
+                if count[s] > 0 && lvl == 0 {
+                    out.push(Viol::new(format!("c12:{}-heading-without-{}-finding", SEV[s], SEV[s]), format!("'{}' is printed although no {}-severity pattern has findings", HEADINGS[s], SEV[s]), format!("no '{}' heading", HEADINGS[s]), format!("'{}' printed", HEADINGS[s])));
+                } else if count[s] > 0 && lvl == 1 && !evs.iter().any(|e| matches!(e, Ev::Block { pat: Some(p), .. } if VULNS[*p].2 == s)) {
+                    out.push(Viol::new(format!("c12:{}-heading-without-{}-finding", SEV[s], SEV[s]), format!("'{}' is printed, without any section under it, although no {}-severity pattern has findings", HEADINGS[s], SEV[s]), format!("no '{}' heading", HEADINGS[s]), format!("'{}' printed", HEADINGS[s])));
+                } else if count[s] > 0 && lvl == 1 {
+                    out.push(Viol::new("c12:severity-heading-for-files-without-lines", format!("'{}' is printed although the {}-severity patterns have only files with empty line sets (no finding)", HEADINGS[s], SEV[s]), format!("no '{}' heading", HEADINGS[s]), format!("'{}' printed", HEADINGS[s])));
+                } else if count[s] == 0 && lvl == 2 {
+                    out.push(Viol::new(format!("c12:{}-heading-missing", SEV[s]), format!("a {}-severity finding exists but '{}' is not printed", SEV[s], HEADINGS[s]), format!("'{}' printed", HEADINGS[s]), "absent"));
+                }
+                if count[s] > 1 {
+                    out.push(Viol::new(format!("c12:{}-heading-repeated", SEV[s]), format!("'{}' is printed {} times", HEADINGS[s], count[s]), "once", format!("{} times", count[s])));
+                }
+            }
+        }
+    }
+    out
+}
+
+// ------------------------------------------------------------------ C13
+
+/// canonical order of the files of one pattern: ascending (name, line set), the order of `Vec::sort`
+fn sorted_files(f: &Files) -> Files {
+    let mut g = f.clone();
+    g.sort();
+    g
+}
+
+/// Order in which the category renders its patterns, learned from renderings of the map that holds
+/// every pattern once; None if that order is not even stable between fresh maps.
+fn learn_order(spec: &Spec, c: Cat) -> Option<Vec<usize>> {
+    let full: Part = (0..spec.n(c)).map(|i| (i, vec![("a.sol".to_string(), vec![1])])).collect();
+    let mut seen: Option<Vec<usize>> = None;
+    for k in 0..4 {
+        let mut p = full.clone();
+        if k % 2 == 1 {
+            p.reverse();
+        }
+        let text = render(c, &p, 0).ok()?;
+        let order: Vec<usize> = block_seq(&read_back(spec, c, &text)).into_iter().filter_map(|(p, _)| p).collect();
+        let mut sorted = order.clone();
+        sorted.sort();
+        sorted.dedup();
+        if sorted.len() != spec.n(c) || order.len() != spec.n(c) {
+            return None;
+        }
+        match &seen {
+            None => seen = Some(order),
+            Some(o) if *o != order => return None,
+            _ => {}
+        }
+    }
+    seen
+}
+
+fn file_names_dedup(e: &[(String, i32)]) -> Vec<String> {
+    let mut v: Vec<String> = vec![];
+    for (f, _) in e {
+        if v.last() != Some(f) {
+            v.push(f.clone());
+        }
+    }
+    v
+}
+
+/// why do two renderings of the same findings differ
+fn classify_diff(spec: &Spec, c: Cat, a: &[(Option<usize>, Vec<(String, i32)>)], b: &[(Option<usize>, Vec<(String, i32)>)], how: &str, out: &mut Vec<Viol>) {
+    let pa: Vec<Option<usize>> = a.iter().map(|x| x.0).collect();
+    let pb: Vec<Option<usize>> = b.iter().map(|x| x.0).collect();
+    let names = |v: &Vec<Option<usize>>| v.iter().map(|p| p.map(|i| spec.name(c, i).to_string()).unwrap_or("?".into())).collect::<Vec<_>>().join(", ");
+    let mut found = false;
+    if pa != pb {
+        found = true;
+        out.push(Viol::new(
+            format!("c13:pattern-order-depends-on-hashmap:{}", c.long()),
+            format!("the same findings rendered from {} give the sections in a different order (iteration order of the hash map)", how),
+            format!("[{}]", names(&pa)),
+            format!("[{}]", names(&pb)),
+        ));
+    }
+    for (p, ea) in a {
+        if let Some((_, eb)) = b.iter().find(|(q, _)| q == p) {
+            if ea != eb {
+                found = true;
+                let pname = p.map(|i| spec.name(c, i).to_string()).unwrap_or("?".into());
+                let mut sa = ea.clone();
+                let mut sb = eb.clone();
+                sa.sort();
+                sb.sort();
+                if sa != sb {
+                    out.push(Viol::new(format!("c13:entries-differ-between-renderings:{}", c.long()), format!("the same findings rendered from {} list different entries for {}", how, pname), show_entries(ea), show_entries(eb)));
+                } else if file_names_dedup(ea) == file_names_dedup(eb) {
+                    out.push(Viol::new(
+                        format!("c13:order-of-same-named-files-depends-on-insertion:{}", c.long()),
+                        format!("two files with the same name: the order of their entries under {} follows the order of the (file, lines) elements ({})", pname, how),
+                        show_entries(ea),
+                        show_entries(eb),
+                    ));
+                } else {
+                    out.push(Viol::new(
+                        format!("c13:file-order-depends-on-insertion:{}", c.long()),
+                        format!("the order of the entries under {} follows the order in which the files were inserted/discovered ({})", pname, how),
+                        show_entries(ea),
+                        show_entries(eb),
+                    ));
+                }
+                break;
+            }
+        }
+    }
+    if !found {
+        out.push(Viol::new(format!("c13:text-differs:{}", c.long()), format!("the same findings rendered from {} give different text although sections and entries are in the same order", how), "byte-identical text", "different text"));
+    }
+}
+
+fn shuffled_part(part: &Part, rng: &mut Rng, pats: bool, files: bool, reverse: bool) -> Part {
+    let mut p = part.clone();
+    if pats {
+        if reverse {
+            p.reverse();
+        } else {
+            rng.shuffle(&mut p);
+        }
+    }
+    if files {
+        for (_, f) in p.iter_mut() {
+            if reverse {
+                f.reverse();
+            } else {
+                rng.shuffle(f);
+            }
+        }
+    }
+    p
+}
+
+fn render_in_child(c: Cat, part: &Part, spec: &Spec) -> Option<Result<String, String>> {
+    let exe = std::env::current_exe().ok()?;
+    let payload = Case::one(c, part.clone()).ser(spec);
+    let o = std::process::Command::new(exe).arg("rep-render").arg(format!("@src:{}", payload)).output().ok()?;
+    if o.status.success() {
+        Some(String::from_utf8(o.stdout).map_err(|_| "child printed invalid UTF-8".to_string()))
+    } else {
+        Some(Err(String::from_utf8_lossy(&o.stderr).to_string()))
+    }
+}
+
+struct Effort {
+    fresh: usize,
+    perms: usize,
+    children: usize,
+}
+
+fn check_c13(spec: &Spec, case: &Case, eff: &Effort, orders: &[Option<Vec<usize>>; 3], evals: &mut u64, notes: &mut BTreeSet<String>) -> Vec<Viol> {
+    let mut out = vec![];
+    let mut rng = Rng::new(fnv(&case.ser(spec)));
+    if case.whole {
+        let base = match render_whole(case) {
+            Ok(t) => t,
+            Err(e) => return vec![Viol::new("c13:panic:generate_report", format!("generate_report panicked: {}", e), "a report", e)],
+        };
+        *evals += 1;
+        let seq_of = |text: &str, c: Cat| -> Vec<(Option<usize>, Vec<(String, i32)>)> { whole_blocks(spec, text).into_iter().filter(|(p, _, _)| p.map_or(true, |(d, _)| d == c)).map(|(p, e, _)| (p.map(|x| x.1), e)).collect() };
+        for k in 0..(eff.fresh + 2 * eff.perms) {
+            let mut v = case.clone();
+            let how = if k < eff.fresh {
+                "another fresh set of maps filled in the same order"
+            } else if k < eff.fresh + eff.perms {
+                for (_, p) in v.parts.iter_mut() {
+                    *p = shuffled_part(p, &mut rng, true, false, k == eff.fresh);
+                }
+                "maps filled in a different pattern order"
+            } else {
+                for (_, p) in v.parts.iter_mut() {
+                    *p = shuffled_part(p, &mut rng, false, true, k == eff.fresh + eff.perms);
+                }
+                "maps whose (file, lines) vectors are in a different order"
+            };
+            *evals += 1;
+            match render_whole(&v) {
+                Err(e) => out.push(Viol::new("c13:panic:generate_report", format!("generate_report panicked: {}", e), "a report", e)),
+                Ok(t) if t != base => {
+                    let before = out.len();
+                    for c in CATS {
+                        let (a, b) = (seq_of(&base, c), seq_of(&t, c));
+                        if a != b {
+                            classify_diff(spec, c, &a, &b, how, &mut out);
+                        }
+                    }
+                    if out.len() == before {
+                        out.push(Viol::new("c13:report-file-differs", format!("solstat_report.md differs between two renderings of the same findings ({})", how), "byte-identical files", "different files"));
+                    }
+                }
+                _ => {}
+            }
+        }
+        dedup(&mut out);
+        return out;
+    }
+    for (c, part) in &case.parts {
+        let c = *c;
+        *evals += 1;
+        let base = match render(c, part, 0) {
+            Ok(t) => t,
+            Err(e) => {
+                out.push(Viol::new(format!("c13:panic:{}", c.long()), format!("generate_{}_report panicked: {}", c.tag(), e), "a report", e));
+                continue;
+            }
+        };
+        let base_seq = block_seq(&read_back(spec, c, &base));
+        let mut variants: Vec<(&str, Part, usize)> = vec![];
+        for _ in 0..eff.fresh {
+            variants.push(("another fresh map filled in the same order", part.clone(), 0));
+        }
+        variants.push(("a fresh map created with capacity 64", part.clone(), 64));
+        variants.push(("a fresh map created with capacity 1024", part.clone(), 1024));
+        for k in 0..eff.perms {
+            variants.push(("a map filled in a different pattern order", shuffled_part(part, &mut rng, true, false, k == 0), 0));
+        }
+        for k in 0..eff.perms {
+            variants.push(("a map whose (file, lines) vectors are in a different order", shuffled_part(part, &mut rng, false, true, k == 0), 0));
+        }
+        variants.push(("a map filled in a different pattern order with differently ordered (file, lines) vectors", shuffled_part(part, &mut rng, true, true, false), 256));
+        let mut stable = true;
+        for (how, p, cap) in &variants {
+            *evals += 1;
+            match render(c, p, *cap) {
+                Err(e) => out.push(Viol::new(format!("c13:panic:{}", c.long()), format!("generate_{}_report panicked: {}", c.tag(), e), "a report", e)),
+                Ok(t) if t != base => {
+                    stable = false;
+                    classify_diff(spec, c, &base_seq, &block_seq(&read_back(spec, c, &t)), how, &mut out);
+                }
+                _ => {}
+            }
+        }
+        for _ in 0..eff.children {
+            *evals += 1;
+            match render_in_child(c, part, spec) {
+                None => {
+                    notes.insert("could not start a child process: rendering in another process (other hash seed) was not compared".to_string());
+                }
+                Some(Err(e)) => out.push(Viol::new(format!("c13:panic:{}", c.long()), format!("rendering in a child process failed: {}", head(&e, 300)), "a report", head(&e, 300))),
+                Some(Ok(t)) if t != base => {
+                    stable = false;
+                    classify_diff(spec, c, &base_seq, &block_seq(&read_back(spec, c, &t)), "another process", &mut out);
+                }
+                _ => {}
+            }
+        }
+        // canonical rendering: patterns in the category's fixed order, files ascending by (name, line set)
+        if stable {
+            if let Some(order) = &orders[c as usize] {
+                let mut want: Vec<(Option<usize>, Vec<(String, i32)>)> = vec![];
+                for i in order {
+                    let mut files: Files = part.iter().filter(|(j, _)| j == i).flat_map(|(_, f)| f.clone()).collect();
+                    files = sorted_files(&files);
+                    let e = expected_entries(&files);
+                    if !e.is_empty() {
+                        want.push((Some(*i), e));
+                    }
+                }
+                let got: Vec<(Option<usize>, Vec<(String, i32)>)> = base_seq.iter().filter(|(_, e)| !e.is_empty()).cloned().collect();
+                let norm = |v: &Vec<(Option<usize>, Vec<(String, i32)>)>| {
+                    let mut w: Vec<(Option<usize>, Vec<(String, i32)>)> = v.iter().map(|(p, e)| { let mut e = e.clone(); e.sort(); (*p, e) }).collect();
+                    w.sort();
+                    w
+                };
+                // wrong or missing entries are C11's matter: only the ORDER is compared here
+                if want != got && norm(&want) == norm(&got) {
+                    let wp: Vec<Option<usize>> = want.iter().map(|x| x.0).collect();
+                    let gp: Vec<Option<usize>> = got.iter().map(|x| x.0).collect();
+                    let show = |v: &Vec<(Option<usize>, Vec<(String, i32)>)>| v.iter().map(|(p, e)| format!("{} {}", p.map(|i| spec.name(c, i).to_string()).unwrap_or("?".into()), show_entries(e))).collect::<Vec<_>>().join("; ");
+                    let key = if wp != gp { "c13:pattern-order-not-canonical" } else { "c13:file-order-not-canonical" };
+                    out.push(Viol::new(
+                        format!("{}:{}", key, c.long()),
+                        "the rendering is stable but is not render(sorted view of the findings): patterns in the category's fixed order (the one of the report holding every pattern), files ascending by (name, line set)",
+                        show(&want),
+                        show(&got),
+                    ));
+                }
+            }
+        }
+    }
+    dedup(&mut out);
+    out
+}
+
+fn dedup(v: &mut Vec<Viol>) {
+    let mut seen = BTreeSet::new();
+    v.retain(|x| seen.insert(x.key.clone()));
+}
+
+// ------------------------------------------------------------------ generators
+
+const PLAIN: [&str; 6] = ["a.sol", "b.sol", "Token.sol", "Vault.sol", "lib_math.sol", "c.sol"];
+const TRICKY: [&str; 14] = [
+    "my contract.sol",
+    "a:b.sol",
+    "x.sol:12",
+    "- y.sol:3",
+    "\u{fc}n\u{ef}c\u{f6}d\u{e9}.sol",
+    "\u{5408}\u{7ea6}.sol",
+    "",
+    "### Lines",
+    "## Low Risk",
+    " lead.sol",
+    "trail.sol ",
+    ":",
+    "a.sol:-1",
+    "\u{1f600}.sol",
+];
+
+struct Gen {
+    rng: Rng,
+}
+
+impl Gen {
+    /// level 0 plain, 1 plain+tricky pool, 2 also random strings
+    fn name(&mut self, level: usize) -> String {
+        let r = self.rng.below(10);
+        if level == 0 || r < 4 {
+            self.rng.pick(&PLAIN).to_string()
+        } else if level == 1 || r < 7 {
+            self.rng.pick(&TRICKY).to_string()
+        } else {
+            let alphabet: Vec<char> = "abcXYZ019 ._-:#/|\\'\"`*()[]{}<>,;!?=+~@$%^&\u{e9}\u{df}\u{3b1}\u{416}\u{4e2d}\u{1f525}\t".chars().collect();
+            let n = self.rng.below(40);
+            (0..n).map(|_| *self.rng.pick(&alphabet)).collect()
+        }
+    }
+    fn lines(&mut self, max: usize, level: usize) -> Vec<i32> {
+        let n = self.rng.below(max + 1);
+        let mut s = BTreeSet::new();
+        for _ in 0..n {
+            let r = self.rng.below(20);
+            let v = if level < 2 || r < 16 {
+                1 + self.rng.below(if level == 0 { 60 } else { 5000 }) as i32
+            } else {
+                *self.rng.pick(&[0, i32::MAX, -1, i32::MIN, 1000000])
+            };
+            s.insert(v);
+        }
+        s.into_iter().collect()
+    }
+    fn files(&mut self, maxfiles: usize, maxlines: usize, level: usize) -> Files {
+        let n = self.rng.below(maxfiles + 1);
+        let mut v: Files = vec![];
+        for _ in 0..n {
+            // now and then the same name again (same-named files of different directories)
+            let name = if !v.is_empty() && level > 0 && self.rng.below(6) == 0 { v[self.rng.below(v.len())].0.clone() } else { self.name(level) };
+            let ls = self.lines(maxlines, level);
+            v.push((name, ls));
+        }
+        v
+    }
+    fn subset(&mut self, n: usize, k: usize) -> Vec<usize> {
+        let mut all: Vec<usize> = (0..n).collect();
+        self.rng.shuffle(&mut all);
+        all.truncate(k);
+        all
+    }
+    fn part(&mut self, spec: &Spec, c: Cat, maxpats: usize, maxfiles: usize, maxlines: usize, level: usize) -> Part {
+        let n = spec.n(c);
+        let k = self.rng.below(maxpats.min(n) + 1);
+        self.subset(n, k).into_iter().map(|i| (i, self.files(maxfiles, maxlines, level))).collect()
+    }
+}
+
+/// shapes of one pattern's Vec: 0, 1 or 2 files with 0..=3 lines each (21 shapes)
+fn shapes() -> Vec<Vec<usize>> {
+    let mut v: Vec<Vec<usize>> = vec![vec![]];
+    for a in 0..4 {
+        v.push(vec![a]);
+    }
+    for a in 0..4 {
+        for b in 0..4 {
+            v.push(vec![a, b]);
+        }
+    }
+    v
+}
+
+fn files_of_shape(shape: &[usize], salt: usize) -> Files {
+    shape.iter().enumerate().map(|(j, n)| (["a.sol", "b.sol"][j].to_string(), (0..*n).map(|k| (10 * (j + 1) + 3 * k + salt) as i32).collect())).collect()
+}
+
+/// every single pattern of every category with every shape, and the empty maps
+fn gen_singles(spec: &Spec) -> Vec<Case> {
+    let mut v = vec![];
+    for c in CATS {
+        v.push(Case::one(c, vec![]));
+        for sh in shapes() {
+            for i in 0..spec.n(c) {
+                v.push(Case::one(c, vec![(i, files_of_shape(&sh, i))]));
+            }
+        }
+    }
+    v
+}
+
+/// all subsets of the four vulnerability patterns x all shape assignments
+fn gen_vuln_exhaustive() -> Vec<Case> {
+    let sh = shapes();
+    let mut v = vec![];
+    for mask in 0..16usize {
+        let members: Vec<usize> = (0..4).filter(|i| mask & (1 << i) != 0).collect();
+        let mut idx = vec![0usize; members.len()];
+        loop {
+            v.push(Case::one(Cat::Vuln, members.iter().enumerate().map(|(k, i)| (*i, files_of_shape(&sh[idx[k]], *i))).collect()));
+            let mut k = 0;
+            while k < idx.len() {
+                idx[k] += 1;
+                if idx[k] < sh.len() {
+                    break;
+                }
+                idx[k] = 0;
+                k += 1;
+            }
+            if k == idx.len() {
+                break;
+            }
+        }
+    }
+    // small to large
+    v.sort_by_key(|c| (c.parts[0].1.len(), c.entries()));
+    v
+}
+
+/// the k-th of n seeded random maps; sizes and name/line-number exoticness grow with k
+fn gen_random(spec: &Spec, g: &mut Gen, k: usize, n: usize, thorough: bool, cats: &[Cat]) -> Case {
+    let c = cats[k % cats.len()];
+    let stage = 3 * k / n.max(1);
+    let (mp, mf, ml, lvl) = match (thorough, stage) {
+        (false, 0) => (2, 2, 2, 0),
+        (false, 1) => (3, 3, 3, 1),
+        (false, _) => (6, 3, 4, 2),
+        (true, 0) => (3, 3, 3, 1),
+        (true, 1) => (8, 5, 6, 2),
+        (true, _) => (23, 8, 12, 2),
+    };
+    Case::one(c, g.part(spec, c, mp, mf, ml, lvl))
+}
+
+/// whole-report cases: per category one of {no map entry, pattern -> [], pattern -> files without
+/// lines, pattern -> findings}; at most one pattern per category has files, so that the expected
+/// composition does not depend on C13
+fn gen_whole(spec: &Spec, g: &mut Gen, extra: usize, level: usize) -> Vec<Case> {
+    let mut v = vec![];
+    let state = |g: &mut Gen, c: Cat, s: usize, level: usize| -> Part {
+        // the 64 base combinations (level 0) use the first pattern, so that the witnesses do not depend on the seed
+        let i = if level == 0 { 0 } else { g.rng.below(spec.n(c)) };
+        let j = (i + 1) % spec.n(c);
+        match s {
+            0 => vec![],
+            1 => vec![(i, vec![])],
+            2 => vec![(i, vec![(if level == 0 { "a.sol".to_string() } else { g.name(level) }, vec![])]), (j, vec![])],
+            _ if level == 0 => vec![(j, vec![]), (i, files_of_shape(&[2, 1], 0))],
+            _ => {
+                let mut f = g.files(3, 3, level);
+                f.push((g.name(level), vec![1 + g.rng.below(90) as i32]));
+                vec![(j, vec![]), (i, f)]
+            }
+        }
+    };
+    for code in 0..64 {
+        let s = [code % 4, (code / 4) % 4, code / 16];
+        v.push(Case { whole: true, parts: CATS.iter().map(|c| (*c, state(g, *c, s[*c as usize], 0))).collect() });
+    }
+    for _ in 0..extra {
+        v.push(Case { whole: true, parts: CATS.iter().map(|c| { let s = g.rng.below(4); (*c, state(g, *c, s, level)) }).collect() });
+    }
+    v
+}
+
+// ------------------------------------------------------------------ the checks
+
+fn record(r: &mut CheckResult, spec: &Spec, cmd: &str, case: &Case, viols: Vec<Viol>) {
+    for v in viols {
+        r.violate(&v.key, &v.what, vec![format!("{}-case", cmd), format!("@src:{}", case.ser(spec))], v.expected, v.actual);
+    }
+}
+
+fn sample_of(spec: &Spec, case: &Case) -> J {
+    J::obj(vec![("case", J::s(case.ser(spec))), ("entries", J::Num(case.entries() as i64)), ("whole_report", J::Bool(case.whole))])
+}
+
+fn quiet_panics() {
+    std::panic::set_hook(Box::new(|_| {}));
+}
+
+fn run_c11(tier: &str, seed: u64) -> CheckResult {
+    let thorough = tier == "thorough";
+    let spec = Spec::new();
+    let mut r = CheckResult::new("c11");
+    let mut g = Gen { rng: Rng::new(seed) };
+    for v in spec.static_checks() {
+        if v.key.starts_with("c11:") {
+            r.violate(&v.key, &v.what, vec!["c11-case".into()], v.expected, v.actual);
+        }
+    }
+    r.evaluations += 30;
+    let n_rand = if thorough { 120000 } else { 900 };
+    let singles = gen_singles(&spec);
+    let n_single = singles.len();
+    let wholes = gen_whole(&spec, &mut Gen { rng: Rng::new(seed ^ 0x5eed) }, if thorough { 3000 } else { 40 }, 2);
+    let total = n_single + n_rand + wholes.len();
+    let step = |r: &mut CheckResult, case: &Case, sample: bool| {
+        let mut ev = 0;
+        let viols = check_c11(&spec, case, &mut ev);
+        r.evaluations += ev;
+        if case.entries() > 0 {
+            r.nontrivial.insert(case.fingerprint());
+        }
+        if sample {
+            r.sample(sample_of(&spec, case));
+        }
+        record(r, &spec, "c11", case, viols);
+    };
+    for (k, case) in singles.iter().enumerate() {
+        step(&mut r, case, k == n_single / 2);
+    }
+    for k in 0..n_rand {
+        let case = gen_random(&spec, &mut g, k, n_rand, thorough, &CATS);
+        step(&mut r, &case, k == 5 || k == n_rand / 2 || k == n_rand - 1);
+    }
+    for (k, case) in wholes.iter().enumerate() {
+        step(&mut r, case, k == wholes.len() - 1);
+    }
+    // one defect, one key: a mismatch that shows on plain file names already is not a matter of the
+    // name class, and what shows in a category report already is not a matter of generate_report
+    let keys: BTreeSet<String> = r.violations.iter().map(|v| v.key.clone()).collect();
+    r.violations.retain(|v| {
+        let mut k = v.key.clone();
+        let mut subsumed = false;
+        if let Some((base, last)) = k.clone().rsplit_once(':') {
+            if NAME_CLASSES.contains(&last) {
+                subsumed |= keys.contains(base);
+                k = base.to_string();
+            }
+        }
+        if let Some(t) = k.strip_prefix("c11:report-file:") {
+            subsumed |= keys.contains(&format!("c11:{}", t)) || NAME_CLASSES.iter().any(|n| keys.contains(&format!("c11:{}:{}", t, n)));
+        }
+        !subsumed
+    });
+    r.rule = "a case is one findings map handed to the real generate_{vulnerability,optimization,qa}_report (or three maps handed to generate_report, read from solstat_report.md) and read back; non-trivial = at least one (file, line) finding; distinct by serialized case".into();
+    r.bound = format!(
+        "{} cases: every single pattern (30) x every shape (0,1,2 files x 0..3 lines) and the empty maps exhaustively; {} seeded random maps (up to {} patterns, {} files per pattern, {} lines per file; names with spaces, ':', unicode, report-like syntax, repeated names; line numbers incl. 0, negative, i32::MAX in the last third); {} whole-report cases",
+        total,
+        n_rand,
+        if thorough { 23 } else { 6 },
+        if thorough { 8 } else { 3 },
+        if thorough { 12 } else { 4 },
+        wholes.len()
+    );
+    r.assumptions.push("the section text of a pattern is the text returned by the report_section_content function of the report_sections module named after it (table in rep.rs); get_*_report_section is compared against that table".into());
+    r.assumptions.push("blank lines around a section text are not significant; file names contain no line break".into());
+    r
+}
+
+fn run_c12(tier: &str, seed: u64) -> CheckResult {
+    let thorough = tier == "thorough";
+    let spec = Spec::new();
+    let mut r = CheckResult::new("c12");
+    let mut g = Gen { rng: Rng::new(seed) };
+    for v in spec.static_checks() {
+        if v.key.starts_with("c12:") {
+            r.violate(&v.key, &v.what, vec!["c12-case".into()], v.expected, v.actual);
+        }
+    }
+    let n_rand = if thorough { 100000 } else { 600 };
+    let mut fixed = gen_vuln_exhaustive();
+    let n_ex = fixed.len();
+    fixed.extend(gen_singles(&spec).into_iter().filter(|c| c.parts[0].0 != Cat::Qa));
+    let wholes = gen_whole(&spec, &mut Gen { rng: Rng::new(seed ^ 0x5eed) }, if thorough { 4000 } else { 64 }, 1);
+    let total = fixed.len() + n_rand + wholes.len();
+    let step = |r: &mut CheckResult, case: &Case, sample: bool| {
+        let mut ev = 0;
+        let viols = check_c12(&spec, case, &mut ev);
+        r.evaluations += ev;
+        if case.entries() > 0 {
+            r.nontrivial.insert(case.fingerprint());
+        }
+        if sample {
+            r.sample(sample_of(&spec, case));
+        }
+        record(r, &spec, "c12", case, viols);
+    };
+    for (k, case) in fixed.iter().enumerate() {
+        step(&mut r, case, k == n_ex / 3 || k == n_ex - 1);
+    }
+    for k in 0..n_rand {
+        let case = gen_random(&spec, &mut g, k, n_rand, thorough, &[Cat::Opt, Cat::Vuln, Cat::Opt]);
+        step(&mut r, &case, k == n_rand - 1);
+    }
+    for (k, case) in wholes.iter().enumerate() {
+        step(&mut r, case, k == wholes.len() - 1);
+    }
+    r.rule = "a case is one findings map rendered by the real generate_vulnerability_report / generate_optimization_report (total, severity headings) or three maps rendered by generate_report (category parts); non-trivial = at least one (file, line) finding; distinct by serialized case".into();
+    r.bound = format!(
+        "{} cases: all 16 subsets of the 4 vulnerability patterns x per-pattern shapes ({} shapes of 0,1,2 files x 0..3 lines{}) = {} maps enumerated completely; every single optimisation/vulnerability pattern x 21 shapes; {} seeded random maps; {} whole-report cases (4 states per category: absent, pattern without files, files without lines, findings: all 64 combinations, plus seeded ones)",
+        total,
+        shapes().len(),
+        "",
+        n_ex,
+        n_rand,
+        wholes.len()
+    );
+    r.extra.push(("vulnerability_subsets_enumerated".into(), J::Num(16)));
+    r.extra.push(("vulnerability_subset_cases".into(), J::Num(n_ex as i64)));
+    r.assumptions.push("severity of a pattern is taken from the property text (selfdestruct high, divide-before-multiply medium, ERC20 and pragma low)".into());
+    r.assumptions.push("whole-report cases give every category at most one pattern with files, so that the expected composition is independent of C13".into());
+    r
+}
+
+fn run_c13(tier: &str, seed: u64) -> CheckResult {
+    let thorough = tier == "thorough";
+    let spec = Spec::new();
+    let mut r = CheckResult::new("c13");
+    let mut g = Gen { rng: Rng::new(seed) };
+    let orders = [learn_order(&spec, Cat::Vuln), learn_order(&spec, Cat::Opt), learn_order(&spec, Cat::Qa)];
+    let mut cases: Vec<Case> = vec![];
+    // smallest witnesses first: two patterns with one file each; one pattern with two files
+    for c in CATS {
+        for i in 0..spec.n(c) {
+            let j = (i + 1) % spec.n(c);
+            cases.push(Case::one(c, vec![(i, vec![("a.sol".into(), vec![3])]), (j, vec![("a.sol".into(), vec![5])])]));
+            cases.push(Case::one(c, vec![(i, vec![("b.sol".into(), vec![7]), ("a.sol".into(), vec![2, 9])])]));
+            cases.push(Case::one(c, vec![(i, vec![("a.sol".into(), vec![7]), ("a.sol".into(), vec![2, 9])])]));
+        }
+        cases.push(Case::one(c, (0..spec.n(c)).map(|i| (i, vec![("b.sol".to_string(), vec![1]), ("a.sol".to_string(), vec![2])])).collect()));
+    }
+    let n_fixed = cases.len();
+    let n_rand = if thorough { 60000 } else { 450 };
+    let n_whole = if thorough { 400 } else { 12 };
+    let total = n_fixed + n_rand + n_whole;
+    let child_every = if thorough { 400 } else { 60 };
+    let mut notes = BTreeSet::new();
+    let mut step = |r: &mut CheckResult, k: usize, case: &Case, sample: bool| {
+        let eff = Effort { fresh: if thorough { 8 } else { 5 }, perms: if thorough { 4 } else { 3 }, children: if !case.whole && (k < 3 || k % child_every == 0) { 2 } else { 0 } };
+        let mut ev = 0;
+        let viols = check_c13(&spec, case, &eff, &orders, &mut ev, &mut notes);
+        r.evaluations += ev;
+        let freedom = case.parts.iter().any(|(_, p)| p.iter().filter(|(_, f)| nlines(f) > 0).count() >= 2 || p.iter().any(|(_, f)| f.iter().filter(|(_, l)| !l.is_empty()).count() >= 2));
+        if freedom {
+            r.nontrivial.insert(case.fingerprint());
+        }
+        if sample {
+            r.sample(sample_of(&spec, case));
+        }
+        record(r, &spec, "c13", case, viols);
+    };
+    for (k, case) in cases.iter().enumerate() {
+        step(&mut r, k, case, k == 0 || k == n_fixed - 1);
+    }
+    for k in 0..n_rand {
+        let case = gen_random(&spec, &mut g, k, n_rand, thorough, &CATS);
+        step(&mut r, n_fixed + k, &case, k == n_rand / 2);
+    }
+    for k in 0..n_whole {
+        let case = Case { whole: true, parts: CATS.iter().map(|c| (*c, g.part(&spec, *c, 4, 3, 2, 1))).collect() };
+        step(&mut r, n_fixed + n_rand + k, &case, k == n_whole - 1);
+    }
+    drop(step);
+    // no sorting at all shows on same-named files too: report the special class only on its own
+    for c in CATS {
+        if r.violations.iter().any(|v| v.key == format!("c13:file-order-depends-on-insertion:{}", c.long())) {
+            r.violations.retain(|v| v.key != format!("c13:order-of-same-named-files-depends-on-insertion:{}", c.long()));
+        }
+    }
+    r.rule = "a case is one findings SET; an evaluation is one rendering of it by the real code (fresh map instance = fresh hash keys; same / permuted pattern insertion order; permuted (file, lines) vectors; other capacities; some in a child process) compared byte for byte with the first rendering, then with the canonical order; non-trivial = the set leaves an ordering freedom (>= 2 patterns with findings or a pattern with >= 2 files with findings)".into();
+    r.bound = format!(
+        "{} findings sets ({} fixed small ones per pattern, {} seeded random maps of up to {} patterns x {} files, {} whole-report cases through solstat_report.md); per set {} fresh instances + {} pattern permutations + {} file permutations + 3 capacity/mixed variants; every {}th set also rendered twice in a child process",
+        total,
+        n_fixed,
+        n_rand,
+        if thorough { 23 } else { 6 },
+        if thorough { 8 } else { 3 },
+        n_whole,
+        if thorough { 8 } else { 5 },
+        if thorough { 4 } else { 3 },
+        if thorough { 4 } else { 3 },
+        child_every
+    );
+    r.extra.push((
+        "learned_pattern_order".into(),
+        J::Arr(CATS.iter().map(|c| match &orders[*c as usize] { Some(o) => J::arr_s(o.iter().map(|i| spec.name(*c, *i).to_string())), None => J::s("not stable between fresh maps") }).collect()),
+    ));
+    r.assumptions.push("canonical rendering = patterns in the order of the report that holds every pattern (learned per run, only if stable), files ascending by (name, line set); only compared when all renderings of the set are byte-identical".into());
+    r.assumptions.push("per-process randomness is exercised through std's per-instance RandomState keys and a few child processes; the solstat binary itself is not re-run here".into());
+    for n in notes {
+        r.assumptions.push(n);
+    }
+    r
+}
+
+fn replay(cmd: &str, payload: &str) -> i32 {
+    let spec = Spec::new();
+    let case = match Case::de(payload, &spec) {
+        Ok(c) => c,
+        Err(e) => {
+            eprintln!("cannot parse case: {}", e);
+            return 2;
+        }
+    };
+    let mut ev = 0;
+    let viols = match cmd {
+        "c11-case" => {
+            let mut v: Vec<Viol> = spec.static_checks().into_iter().filter(|v| v.key.starts_with("c11:")).collect();
+            v.extend(check_c11(&spec, &case, &mut ev));
+            v
+        }
+        "c12-case" => check_c12(&spec, &case, &mut ev),
+        _ => {
+            let orders = [learn_order(&spec, Cat::Vuln), learn_order(&spec, Cat::Opt), learn_order(&spec, Cat::Qa)];
+            let mut notes = BTreeSet::new();
+            // many fresh instances: a two-pattern map keeps its order in half of the instances
+            check_c13(&spec, &case, &Effort { fresh: 48, perms: 12, children: if case.whole { 0 } else { 2 } }, &orders, &mut ev, &mut notes)
+        }
+    };
+    if viols.is_empty() {
+        println!("contract holds on this case ({} evaluations)", ev);
+        0
+    } else {
+        for v in &viols {
+            println!("VIOLATION {}: {}\n  expected: {}\n  actual:   {}", v.key, v.what, v.expected, v.actual);
+        }
+        1
+    }
+}
 
 /// Returns Some(exit code) when `cmd` belongs to this module.
 pub fn dispatch(cmd: &str, rest: &[String], tier: &str, seed: u64) -> Option<i32> {
-    let _ = (rest, tier, seed);
     match cmd {
-        "c11" => {
-            println!("{}", todo("c11").to_json().render());
+        "c11" | "c12" | "c13" => {
+            quiet_panics();
+            let r = match cmd {
+                "c11" => run_c11(tier, seed),
+                "c12" => run_c12(tier, seed),
+                _ => run_c13(tier, seed),
+            };
+            println!("{}", r.to_json().render());
             Some(0)
         }
-        "c12" => {
-            println!("{}", todo("c12").to_json().render());
-            Some(0)
+        "c11-case" | "c12-case" | "c13-case" => {
+            quiet_panics();
+            if rest.is_empty() {
+                // static part only (violations that do not depend on a findings map)
+                let spec = Spec::new();
+                let v: Vec<Viol> = spec.static_checks().into_iter().filter(|v| v.key.starts_with(&cmd[..3])).collect();
+                for x in &v {
+                    println!("VIOLATION {}: {}", x.key, x.what);
+                }
+                return Some(if v.is_empty() { 0 } else { 1 });
+            }
+            Some(replay(cmd, &crate::arg_or_file(&rest[0])))
         }
-        "c13" => {
-            println!("{}", todo("c13").to_json().render());
+        "rep-render" => {
+            // helper of C13: render one category part in this (new) process and print the text
+            quiet_panics();
+            let spec = Spec::new();
+            let case = match Case::de(&crate::arg_or_file(rest.first().map(|s| s.as_str()).unwrap_or("")), &spec) {
+                Ok(c) => c,
+                Err(e) => {
+                    eprintln!("cannot parse case: {}", e);
+                    return Some(2);
+                }
+            };
+            for (c, part) in &case.parts {
+                match render(*c, part, 0) {
+                    Ok(t) => print!("{}", t),
+                    Err(e) => {
+                        eprintln!("panic: {}", e);
+                        return Some(3);
+                    }
+                }
+            }
             Some(0)
         }
         _ => None,
     }
-}
-
-#[allow(dead_code)]
-fn todo(name: &str) -> CheckResult {
-    let mut r = CheckResult::new(name);
-    r.violate("harness:not-implemented", "check not implemented yet", vec![name.to_string()], String::new(), String::new());
-    r
 }
